@@ -112,7 +112,7 @@ CLAIMED = {
         text="Every recorded observe/unobserve step is judged: failure iff Observe!Fails says the walk meets an object "
              "lacking a required trait (then the notifier census is unchanged), NotifierNotFound iff the count is 0, "
              "census back to the baseline whenever no registration is left, unregistered handlers never called, nothing "
-             "kept alive by registrations after the pool or a handler owner is dropped.",
+             "kept alive by registrations after the pool or a handler owner is dropped. Session 4: RegCount.tla - registrations on three observed objects sharing a downstream object, two of them equal but distinct.",
         note="Trusted: TLC; census = sizes of all trait / container / object notifier lists of the pool; failures "
              "injected through one object of a class lacking the observed trait; gc.collect() forced explicitly.",
         design="4/C09"),
@@ -214,7 +214,7 @@ CLAIMED = {
         text="Exhaustive model checking over all configurations of a 7-type hierarchy family (chains, multiple "
              "inheritance, ABC virtual subclass) with 2 (quick) / 3 (thorough) offers incl. failing and conditional "
              "factories; all 2-offer configurations replayed on the real AdaptationManager through five entry points; "
-             "random 3-7 offer configurations with cycles and late ABC registration judged by TLC. Session 4: a deeper class chain (A3, A4, virtual registration with the ABC) in the random configurations; Supports inside Either as an entry point.",
+             "random 3-7 offer configurations with cycles and late ABC registration judged by TLC. Session 4: a deeper class chain (A3, A4, virtual registration with the ABC) in the random configurations; Supports inside Either as an entry point. Offers named through facade modules that were never imported.",
         note="Trusted: TLC; the MRO table of the fixed class family in Adaptation.tla matches the generated Python "
              "classes; factories' success depends only on their position in the chain.",
         design="4/C17"),
